@@ -616,19 +616,22 @@ impl Terminal for UnixTerminal {
         self.execute(TerminalCommand::CursorGet)?;
         self.execute(TerminalCommand::DeviceAttrs)?; // sync event
         let mut pos = Position::origin();
-        while let Some(event) = self.poll(None)? {
-            match event {
-                TerminalEvent::DeviceAttrs(..) => {
-                    self.events_queue.extend(queue);
-                    return Ok(pos);
-                }
-                TerminalEvent::CursorPosition(term_pos) => {
+        let result = loop {
+            match self.poll(None) {
+                Err(error) => break Err(error),
+                Ok(None) | Ok(Some(TerminalEvent::DeviceAttrs(..))) => break Ok(pos),
+                Ok(Some(TerminalEvent::CursorPosition(term_pos))) => {
                     pos = term_pos;
                 }
-                event => queue.push(event),
+                Ok(Some(event)) => queue.push(event),
             }
+        };
+        // events set aside arrived before whatever is still queued: put them back
+        // in front, in arrival order, on every return path
+        for event in queue.into_iter().rev() {
+            self.events_queue.push_front(event);
         }
-        Ok(pos)
+        result
     }
 
     fn waker(&self) -> TerminalWaker {
